@@ -671,6 +671,43 @@ func c11(c *Ctx) {
 				}
 				fn := astx.Callee(info, call)
 				ok := meth == "Header" || fn != nil && (isFunc(fn, "net/http", "Error") || privNA != nil && fn == privNA.Obj)
+				// a helper of the package that does nothing with the writer but refuse (http.Error, Header())
+				if !ok && fn != nil {
+					if h := c.P.FuncOf(fn); h != nil && h.Body() != nil && load.ShortPkg(h.Pkg.PkgPath) == "api" && h != priv {
+						hi := h.Info()
+						var hw types.Object
+						for _, fld := range h.FuncType().Params.List {
+							for _, nm := range fld.Names {
+								if o := hi.Defs[nm]; o != nil && strings.HasSuffix(o.Type().String(), "http.ResponseWriter") {
+									hw = o
+								}
+							}
+						}
+						refuses := hw != nil
+						for _, c2 := range astx.Calls(h.Body(), true) {
+							uses := false
+							for _, a := range c2.Args {
+								if id, isID := ast.Unparen(a).(*ast.Ident); isID && astx.Obj(hi, id) == hw {
+									uses = true
+								}
+							}
+							m2 := ""
+							if se, isSel := ast.Unparen(c2.Fun).(*ast.SelectorExpr); isSel {
+								if id, isID := ast.Unparen(se.X).(*ast.Ident); isID && astx.Obj(hi, id) == hw {
+									uses, m2 = true, se.Sel.Name
+								}
+							}
+							if !uses {
+								continue
+							}
+							f2 := astx.Callee(hi, c2)
+							if !(m2 == "Header" || f2 != nil && isFunc(f2, "net/http", "Error")) {
+								refuses = false
+							}
+						}
+						ok = refuses
+					}
+				}
 				r.Check(ok, "C11.H4", priv.Name(), "nothing is served before the password gate", c.P.Pos(call.Pos()), "the response writer goes to http.Error, Header() and DispatchPrivateWithoutAuth only",
 					"DispatchPrivate hands the response writer to "+astx.Str(call.Fun)+" itself: a private route (metrics, status, …) is answered on a path that does not go through the password comparison — e.g. for requests that merely claim to come from localhost")
 			}
